@@ -62,6 +62,12 @@ CHECKS["C04"] = (TV, "translation validation: symbolic execution (SSA->SMT, z3) 
     "non-generator closure}. Reference = the source's native range as lowered by go/ssa under coroutine semantics; implementation = generated loop over seq.New*Iter; the solver "
     "decides log equality for all element values / bytes. Integer range is outside (needs go >= 1.22 sources); sizes <= 3.", "§6 C04")
 
+CHECKS["C06"] = (TV, "translation validation: symbolic execution (SSA->SMT, z3) of consumer functions over generators, generator-side effects make over-pulling visible",
+    "Corpus of consumer functions: range over an iterator with break/continue/return at guard-controlled points, := and = forms, nested ranges, pull code and range code on the "
+    "same iterator, iterators stored in struct fields / map values / slices / closures / passed as parameters, generic helpers, method and generic generators. Generators emit an "
+    "effect before every yield. The solver decides equality of (generator effects + consumer effects + result) between source-under-coroutine-semantics and generated code for all "
+    "inputs in bounds. The 'every occurrence of the type is replaced' clause is a front-end refutation (generated package fails to type-check), reported as unbuildable.", "§6 C06")
+
 NA = {
     "C11": "compiler acceptance/buildability is decided by the compiler pipeline itself (go/packages, go/types, reflection-based AST rewriting, printer, file system); it cannot be encoded by an SSA->SMT translator and has no symbolic dimension once a program is fixed — enumeration of concrete compiler runs would be a different technique (DESIGN §7)",
     "C15": "byte-identical output across runs/configurations is a statement about repeated process runs, map iteration in the compiler and leftovers on disk; no symbolic inputs and the code is not encodable (DESIGN §7)",
